@@ -23,11 +23,13 @@ def _args(tier, seed, k, profile):
     # early zone), u union (unequal lgK, permutations, lvalue/rvalue), b big K with batched updates
     # d deletion-heavy aimed (surprising-value table under stress in SLIDING flavor: probe clusters at the end of the slot array,
     # deletions inside them), r long random stream (20-40 k items, many window moves, batched).  Every file has a d segment early.
-    kinds = ["sdaubur", "udasbad", "adsubru", "ubdasud"][k % 4]
+    # e DIRECTED, first in every file: EMPTY and ONE-item sketches and union results serialized (bytes + stream), restored through both
+    # readers, continued in lock-step with the original, used as union operands (C09 "restore, then continue")
+    kinds = ["esdaubur", "eudasbad", "eadsubru", "eubdasud"][k % 4]
     if tier == Q:
-        maxlgk, events, segs = 10, 2600, 7
+        maxlgk, events, segs = 10, 2600, 8
     else:
-        maxlgk, events, segs = (14 if k % 3 == 0 else 11), 6000, 9
+        maxlgk, events, segs = (14 if k % 3 == 0 else 11), 6000, 10
     return ["--seed", seed, "--segments", segs, "--events", events, "--maxlgk", maxlgk, "--kinds", kinds,
             "--serde", 15 if profile == "serde" else 4]
 
